@@ -31,7 +31,9 @@ BatchContract(nn, kk, B) ==
    /\ \A i, j \in 1..kk : Len(B[i]) - Len(B[j]) \in {-1, 0, 1}
    /\ \A i \in 1..kk : Len(B[i]) >= 1
 \* search(site) = the batch that contains it (sites are element numbers here)
-SearchContract(nn, kk, B, S) == \A e \in 0..nn - 1 : e \in {B[S[e + 1] + 1][j] : j \in 1..Len(B[S[e + 1] + 1])}
+SearchContract(nn, kk, B, S) == /\ Len(S) = nn
+                               /\ \A e \in 0..nn - 1 : /\ S[e + 1] \in 0..(Len(B) - 1)          \* every site is found (-1 = not found)
+                                                        /\ e \in {B[S[e + 1] + 1][j] : j \in 1..Len(B[S[e + 1] + 1])}
 ModelOK == k <= n => BatchContract(n, k, ArraySplit(n, k))
 Dump == PrintT(ToJson([n |-> n, k |-> k, ok |-> k <= n]))
 ===========================================================================
